@@ -635,7 +635,9 @@ func capturedPipeWriter(l *FuncInfo) *types.Var {
 			return true
 		}
 		v, ok := info.Uses[id].(*types.Var)
-		if !ok || v.Pos() >= l.Lit.Pos() && v.Pos() < l.Lit.End() {
+		// declared inside the goroutine's body: its own variable (a captured variable, or - for a named function started
+		// with `go` - a parameter, is declared outside the body)
+		if !ok || v.Pos() >= l.Body().Pos() && v.Pos() < l.Body().End() {
 			return true
 		}
 		if p, ok := v.Type().(*types.Pointer); ok {
